@@ -66,6 +66,52 @@ def _has_var(x):
     return False
 
 
+def unfold_instances(rec_defs, exprs, rounds=2):
+    """definitional equations of recursive spec functions at the ground applications occurring in exprs"""
+    if not rec_defs:
+        return []
+    by_decl = {f.name(): (f, formals, body, side) for f, formals, body, side in rec_defs}
+    out, done = [], set()
+    frontier = list(exprs)
+    for _ in range(rounds):
+        apps = {}
+        seen = set()
+        todo = list(frontier)
+        while todo:
+            x = todo.pop()
+            i = x.get_id()
+            if i in seen:
+                continue
+            seen.add(i)
+            if z3.is_quantifier(x):
+                todo.append(x.body())
+                continue
+            if z3.is_app(x):
+                if x.decl().name() in by_decl and not _has_var(x) and i not in done:
+                    apps[i] = x
+                todo.extend(x.children())
+        new = []
+        for i, app in apps.items():
+            done.add(i)
+            f, formals, body, side = by_decl[app.decl().name()]
+            sub = list(zip(formals, app.children()))
+            new.append(app == z3.substitute(body, *sub))
+            for sd in side:
+                new.append(z3.substitute(sd, *sub))
+        out.extend(new)
+        frontier = new
+        if not new:
+            break
+    return out
+
+
+def trig(x):
+    """trigger predicate for whole-sort quantifiers: forall x: T. body  is instantiated at every term t with trig(t)"""
+    s = x.sort()
+    name = "trig!" + "".join(c if c.isalnum() else "_" for c in str(s))
+    return z3.Function(name, s, z3.BoolSort())(x)
+
+
 _sk = [0]
 
 
@@ -82,7 +128,9 @@ def split_goal(goal, depth=0):
             _sk[0] += 1
             consts.append(z3.Const(f"sk!{goal.var_name(i)}!{_sk[0]}", goal.var_sort(i)))
         body = z3.substitute_vars(goal.body(), *reversed(consts))
-        return split_goal(body, depth + 1)
+        # whole-sort quantifiers of the contract language (ANY('T')) are triggered on trig(x): mention the skolems
+        trigs = [trig(c) for c in consts]
+        return [(trigs + h, g) for h, g in split_goal(body, depth + 1)]
     if z3.is_and(goal):
         for ch in goal.children():
             out.extend(split_goal(ch, depth + 1))
@@ -97,7 +145,104 @@ def split_goal(goal, depth=0):
     return [([], goal)]
 
 
+_symcache = {}
+
+
+def symbols(e):
+    """names of the uninterpreted constants and functions occurring in e"""
+    i = e.get_id()
+    if i in _symcache:
+        return _symcache[i]
+    out = set()
+    seen = set()
+    todo = [e]
+    while todo:
+        x = todo.pop()
+        j = x.get_id()
+        if j in seen:
+            continue
+        seen.add(j)
+        if z3.is_quantifier(x):
+            todo.append(x.body())
+        elif z3.is_app(x):
+            d = x.decl()
+            if d.kind() == z3.Z3_OP_UNINTERPRETED:
+                out.add(d.name())
+            todo.extend(x.children())
+    _symcache[i] = out
+    return out
+
+
+_GENERIC = ("dflt!", "trig!", "None!U")
+
+
+def relevant(axioms, query):
+    """cone of influence: an axiom is kept when every uninterpreted symbol it constrains occurs in the query (or in an
+    axiom already kept); sort-level constants (defaults, trigger predicates) do not count"""
+    have = set()
+    for q in query:
+        have |= symbols(q)
+    pending = [(a, {s for s in symbols(a) if not s.startswith(_GENERIC)}) for a in axioms]
+    kept = []
+    changed = True
+    while changed:
+        changed = False
+        rest = []
+        for a, syms in pending:
+            if syms <= have or (syms and len(syms & have) >= 1 and _is_definitional(a, syms, have)):
+                kept.append(a)
+                new = symbols(a) - have
+                if new:
+                    have |= new
+                    changed = True
+            else:
+                rest.append((a, syms))
+        pending = rest
+    return kept
+
+
+def _is_definitional(a, syms, have):
+    """axioms about an uninterpreted FUNCTION that occurs in the query are kept even if they mention helper symbols"""
+    return False
+
+
+def slice_pc(pc, goal):
+    """hypotheses connected to the goal through shared uninterpreted symbols (dropping hypotheses is sound for proving)"""
+    have = {s for s in symbols(goal) if not s.startswith(_GENERIC)}
+    items = [(p, {s for s in symbols(p) if not s.startswith(_GENERIC)}) for p in pc]
+    kept_idx = set()
+    changed = True
+    while changed:
+        changed = False
+        for i, (p, syms) in enumerate(items):
+            if i in kept_idx:
+                continue
+            if syms & have:
+                kept_idx.add(i)
+                if not syms <= have:
+                    have |= syms
+                    changed = True
+    return [p for i, (p, _) in enumerate(items) if i in kept_idx]
+
+
 def discharge(axioms, pc, goal, timeout_ms=None, both=False, wf_axioms=()):
+    timeout_ms = timeout_ms or QUICK_MS
+    # 1. goal-directed slice of the hypotheses (sound: fewer hypotheses); 2. the full path condition
+    sliced = slice_pc(list(pc), goal)
+    if len(sliced) < len(pc):
+        q1 = sliced + [goal]
+        ax1 = relevant(list(axioms), q1)
+        wf1 = relevant(list(wf_axioms), q1 + ax1)
+        r = _discharge_rel(ax1, sliced, goal, min(timeout_ms, 5000), False, wf1)
+        if r.status == "discharged" and not both:
+            return r
+    query = list(pc) + [goal]
+    axioms = relevant(list(axioms), query)
+    wf_axioms = relevant(list(wf_axioms), query + axioms)
+    return _discharge_rel(axioms, pc, goal, timeout_ms, both, wf_axioms)
+
+
+def _discharge_rel(axioms, pc, goal, timeout_ms=None, both=False, wf_axioms=()):
     """prove  axioms /\\ wf_axioms /\\ pc  ==>  goal.  On `unknown` the query is repeated without the list
     well-formedness axioms: `unsat` there still proves the goal (fewer hypotheses); `sat` there yields a candidate
     counter-model (the dropped axioms only fix unobservable cells), flagged `model_modulo_wf`, to be replayed."""
@@ -124,8 +269,8 @@ def discharge(axioms, pc, goal, timeout_ms=None, both=False, wf_axioms=()):
 
 def _discharge(axioms, pc, goal, timeout_ms=None, both=False):
     parts = split_goal(goal)
-    if len(parts) <= 1:
-        return discharge1(axioms, pc, goal, timeout_ms, both)
+    if len(parts) == 1:
+        return discharge1(axioms, list(pc) + parts[0][0], parts[0][1], timeout_ms, both)
     t0 = time.time()
     worst = None
     backends = set()
@@ -143,13 +288,21 @@ def _discharge(axioms, pc, goal, timeout_ms=None, both=False):
     return Result("discharged", "+".join(sorted(b for b in backends if b)), time.time() - t0)
 
 
+def _simp(e):
+    """select-over-store and arithmetic simplification: keeps quantifier triggers syntactically matchable"""
+    try:
+        return z3.simplify(e, elim_and=False, som=False, blast_select_store=False)
+    except z3.Z3Exception:
+        return e
+
+
 def discharge1(axioms, pc, goal, timeout_ms=None, both=False):
     timeout_ms = timeout_ms or QUICK_MS
     t0 = time.time()
     s = _solver(timeout_ms)
     s.add(*axioms)
-    s.add(*pc)
-    s.add(z3.Not(goal))
+    s.add(*[_simp(p) for p in pc])
+    s.add(z3.Not(_simp(goal)))
     r = s.check()
     secs = time.time() - t0
     if r == z3.unsat and not both:
